@@ -181,3 +181,44 @@ def py_sorted(it, args, kwargs):
     ctx.assumptions.append(z3.ForAll([a, b], z3.Implies(rng, z3.And(ordered, stable)),
                                      patterns=[z3.MultiPattern(pm.perm(a), pm.perm(b))]))
     return MList(ctx, out)
+
+
+
+def np_lexsort(it, args, kwargs):
+    """np.lexsort(keys): a stable permutation ordering the rows by keys[-1], then keys[-2], ... (last key primary);
+    within a key NumPy's order of the dtype: numbers/strings/dates by value with NaN/NaT last, False before True."""
+    from .models_np import NDArr, as_arr, elt_lt
+    ctx = it.ctx
+    keys = args[0]
+    kind, coll = M.iter_of(it, keys)
+    if kind != "concrete" or not coll:
+        raise Unsupported("lexsort with a symbolic number of keys")
+    arrs = [as_arr(it, k) for k in coll]
+    n = arrs[0].seq.len
+    for a in arrs[1:]:
+        if not ctx.branch(zint(a.seq.len) == zint(n)):
+            raise PyRaise("ValueError", "all keys need to be the same shape")
+
+    def lt(a, p, q):
+        s_ = a.seq
+        if s_.sort == INT:
+            return s_.at(p) < s_.at(q)
+        if s_.sort == BOOL:
+            return z3.And(z3.Not(s_.at(p)), s_.at(q))
+        return elt_lt(a.kind, s_.at(p), s_.at(q))
+
+    def lexlt(p, q):
+        r = z3.BoolVal(False)
+        for a in arrs:            # build from the least significant key up: primary key is the last one
+            r = z3.Or(lt(a, p, q), z3.And(z3.Not(lt(a, q, p)), r))
+        return r
+    pm = Perm(ctx, n, "lexsort")
+    x, y = z3.Ints("a!lx b!lx")
+    px, py = pm.perm(x), pm.perm(y)
+    rng = z3.And(0 <= x, x < y, y < zint(n))
+    ctx.assumptions.append(z3.ForAll([x, y], z3.Implies(rng, z3.And(z3.Not(lexlt(py, px)), z3.Implies(z3.Not(lexlt(px, py)), px < py))),
+                                     patterns=[z3.MultiPattern(pm.perm(x), pm.perm(y))]))
+    r = NDArr(ctx, Seq(n, lambda j: pm.perm(j), INT), "int", "fresh", None)
+    r.perm = pm
+    it.last_lexsort = pm
+    return r
